@@ -6,6 +6,8 @@ use std::time::{Duration, SystemTime};
 pub struct Out {
     w: std::io::BufWriter<Box<dyn Write>>,
     pub lines: u64,
+    /// when Some, events are collected here instead of being written
+    pub mem: Option<Vec<Value>>,
 }
 
 impl Out {
@@ -14,9 +16,17 @@ impl Out {
             Some(p) if p != "-" => Box::new(std::fs::File::create(p).expect("create output")),
             _ => Box::new(std::io::stdout()),
         };
-        Out { w: std::io::BufWriter::with_capacity(1 << 20, inner), lines: 0 }
+        Out { w: std::io::BufWriter::with_capacity(1 << 20, inner), lines: 0, mem: None }
+    }
+    pub fn memory() -> Out {
+        Out { w: std::io::BufWriter::new(Box::new(std::io::sink())), lines: 0, mem: Some(Vec::new()) }
     }
     pub fn emit(&mut self, v: &Value) {
+        if let Some(m) = self.mem.as_mut() {
+            m.push(v.clone());
+            self.lines += 1;
+            return;
+        }
         serde_json::to_writer(&mut self.w, v).unwrap();
         self.w.write_all(b"\n").unwrap();
         self.lines += 1;
